@@ -144,7 +144,7 @@ impl MemcStore {
                             value -= delta.delta;
                         }
                         record.value = Bytes::from(value.to_string());
-                        record.header = header;
+                        record.header.cas = header.cas;
                         self.set(key, record).map(|result| DeltaResult {
                             cas: result.cas,
                             value,
